@@ -484,6 +484,20 @@ class NP:
             return out
         return r
 
+    def clip(self, a, a_min=None, a_max=None, out=None, **kw):
+        # merged (if-then-else) semantics: no path fork per element
+        if not (has_sym_fast(a) or has_sym_fast(a_min) or has_sym_fast(a_max)):
+            return rnp.clip(a, a_min, a_max, out=out, **kw) if out is not None else rnp.clip(a, a_min, a_max, **kw)
+        r = a
+        if a_max is not None:
+            r = self.minimum(r, a_max)
+        if a_min is not None:
+            r = self.maximum(r, a_min)
+        if out is not None:
+            out[...] = r
+            return out
+        return r
+
     def maximum(self, a, b, out=None, **kw):
         return self._bin(smax, rnp.maximum, a, b, out=out, **kw)
 
